@@ -300,6 +300,7 @@ impl SetRun {
                     fail!("C02", self, "set relations against {:?}: got {:?}, expected {:?} (own contents {:?})", om, got, want, mine);
                 }
             }
+            Op::ClearUnprotected | Op::RetainUnprotected(..) => {}
             Op::Fill(..) | Op::Drain(..) => unreachable!(),
         }
         Ok(())
